@@ -59,48 +59,37 @@ Proof. cbv zeta. split; do 2 eexists; vm_compute; reflexivity. Qed.
 (* ---------------------------------------------------------------- thread pools *)
 Definition nested2 : tree Z := Node (Old 10) m0 (FCons "a" (lf 1) (FCons "n" (Node (Old 11) m0 (FCons "c" (lf 2) FNil)) FNil)).
 
-(* S16: out= with a nested tensordict: the nested rebuild receives the root out *)
+(* C20-f: out= already holds a non-tensor entry: the single-threaded form keeps out's entry (data 50), the thread-pool
+   form writes a new entry with self's data (5) *)
+Definition self_f : tree Z := Node (Old 10) m0 (FCons "a" (lf 1) (FCons "t" (NonT (Old 12) 5 m0) FNil)).
+Definition out_f : tree Z := Node (Old 30) m0 (FCons "a" (lf 31) (FCons "t" (NonT (Old 32) 50 m0) FNil)).
+Lemma mt_nontensor_out_witness :
+  let o := with_checked base_opts in
+  exists m f m' f',
+    st_front Z o (fn_of []) false false self_f [] (Some out_f) None = MOk (Some (Node (Old 30) m f))
+    /\ fget Z f "t" = Some (NonT (Old 32) 50 m0)
+    /\ mt_front Z o (fn_of []) false false self_f [] (Some out_f) None [0%nat] = MOk (Some (Node (Old 30) m' f'))
+    /\ fget Z f' "t" = Some (NonT New 5 m0).
+Proof. cbv zeta. do 4 eexists. split; [vm_compute; reflexivity|]. split; [reflexivity|]. split; [vm_compute; reflexivity|reflexivity]. Qed.
+
+(* the repaired thread-pool form on the former defects: out= with a nested tensordict, default= below the root,
+   filter_empty=None with an all-None subtree, names= with a nested tensordict, checked with another device *)
 Definition out2 : tree Z := Node (Old 30) m0 (FCons "a" (lf 31) (FCons "n" (Node (Old 32) m0 (FCons "c" (lf 33) FNil)) FNil)).
-Lemma mt_out_witness :
-  let o := with_checked base_opts in
-  (exists x, st_front Z o (fn_of []) false false nested2 [] (Some out2) None = MOk (Some x))
-  /\ mt_front Z o (fn_of []) false false nested2 [] (Some out2) None [0%nat; 1%nat] = MCyclic.
-Proof. cbv zeta. split; [eexists|]; vm_compute; reflexivity. Qed.
-
-(* S15: default= is not forwarded below the root *)
 Definition other_s15 : tree Z := Node (Old 20) m0 (FCons "a" (lf 21) (FCons "n" (Node (Old 22) m0 FNil) FNil)).
-Lemma mt_default_witness :
-  let o := with_default (with_checked base_opts) in
-  (exists x, st_front Z o (fn_of []) false false nested2 [other_s15] None None = MOk (Some x))
-  /\ mt_front Z o (fn_of []) false false nested2 [other_s15] None None [1%nat; 0%nat] = MRaised EKey.
-Proof. cbv zeta. split; [eexists|]; vm_compute; reflexivity. Qed.
-
-(* C12-b: filter_empty=None: a nested tensordict for which fn returned None everywhere *)
-Lemma mt_filter_empty_none_witness :
-  let o := with_fe (with_checked base_opts) None in
-  exists x y, st_front Z o (fn_of [2]) false false nested2 [] None None = MOk (Some x)
-              /\ mt_front Z o (fn_of [2]) false false nested2 [] None None [0%nat; 1%nat] = MOk (Some y)
-              /\ erase_t Z x <> erase_t Z y.
-Proof. cbv zeta. do 2 eexists. split; [vm_compute; reflexivity|]. split; [vm_compute; reflexivity|]. vm_compute. discriminate. Qed.
-
-(* C12-c: names= is handed to the nested rebuilds *)
-Lemma mt_names_witness :
-  let o := with_checked base_opts in
-  exists x y, st_front Z o (fn_of []) false false nested2 [] None (Some (Some [Some "t"])) = MOk (Some x)
-              /\ mt_front Z o (fn_of []) false false nested2 [] None (Some (Some [Some "t"])) [0%nat; 1%nat] = MOk (Some y)
-              /\ x <> y /\ erase_t Z x = erase_t Z y.
-Proof.
-  cbv zeta. do 2 eexists. split; [vm_compute; reflexivity|]. split; [vm_compute; reflexivity|].
-  split; [discriminate|vm_compute; reflexivity].
-Qed.
-
-(* C20-d: checked, out= on another device: the single-threaded form rewrites the device of out, the other raises *)
 Definition out_dev : tree Z := Node (Old 30) (mkMeta [3%nat] (Some CPU) None false) FNil.
-Lemma mt_checked_device_witness :
-  let o := with_dev (with_checked base_opts) (Some META) in
-  (exists x, st_front Z o (fn_of []) false false self_a [] (Some out_dev) None = MOk (Some x))
-  /\ mt_front Z o (fn_of []) false false self_a [] (Some out_dev) None [0%nat] = MRaised ERuntime.
-Proof. cbv zeta. split; [eexists|]; vm_compute; reflexivity. Qed.
+Lemma mt_former_defects_agree :
+  (let o := with_checked base_opts in
+   mt_front Z o (fn_of []) false false nested2 [] (Some out2) None [1%nat; 0%nat] = st_front Z o (fn_of []) false false nested2 [] (Some out2) None)
+  /\ (let o := with_default (with_checked base_opts) in
+      mt_front Z o (fn_of []) false false nested2 [other_s15] None None [1%nat; 0%nat] = st_front Z o (fn_of []) false false nested2 [other_s15] None None)
+  /\ (let o := with_fe (with_checked base_opts) None in
+      mt_front Z o (fn_of [2]) false false nested2 [] None None [0%nat; 1%nat] = st_front Z o (fn_of [2]) false false nested2 [] None None)
+  /\ (let o := with_checked base_opts in
+      mt_front Z o (fn_of []) false false nested2 [] None (Some (Some [Some "t"])) [0%nat; 1%nat]
+      = st_front Z o (fn_of []) false false nested2 [] None (Some (Some [Some "t"])))
+  /\ (let o := with_dev (with_checked base_opts) (Some META) in
+      mt_front Z o (fn_of []) false false self_a [] (Some out_dev) None [0%nat] = st_front Z o (fn_of []) false false self_a [] (Some out_dev) None).
+Proof. cbv zeta. repeat split; vm_compute; reflexivity. Qed.
 
 (* ---------------------------------------------------------------- non-vacuity: a non-trivial call inside every domain *)
 Definition self_ex : tree Z :=
@@ -132,7 +121,7 @@ Proof. cbv zeta. eexists. split; vm_compute; reflexivity. Qed.
 
 Lemma example_mt :
   let o := with_checked base_opts in
-  flat_items Z o false false [] m0 (match nested2 with Node _ _ f => f | _ => FNil end) [] (match nested2 with Node _ _ f => f | _ => FNil end) 0
+  flat_items Z o (o_default o) false [] m0 (match nested2 with Node _ _ f => f | _ => FNil end) [] (match nested2 with Node _ _ f => f | _ => FNil end) 0
   = Ok ([mkTask Z None (lf 1) []; mkTask Z None (lf 2) []], [LFut 0; LList [LFut 1]])
-  /\ exists x, mt_front Z o (fn_of []) false false nested2 [] None None [1%nat; 0%nat] = MOk (Some x).
+  /\ exists x, mt_front Z o (fn_of []) false false nested2 [] (Some out2) (Some (Some [Some "t"])) [1%nat; 0%nat] = MOk (Some x).
 Proof. cbv zeta. split; [vm_compute; reflexivity|]. eexists. vm_compute. reflexivity. Qed.
